@@ -101,10 +101,13 @@ def _forked(fn, timeout):
 
 def _req_key(req):
     h = hashlib.sha256()
-    slim = {k: v for k, v in req.items() if k != "rng_state"}
+    from .world import rng_digest
+    slim = {k: v for k, v in req.items() if k not in ("rng_state", "prelude", "compare")}
+    slim["prelude"] = [{"index": p["index"], "step": p["step"],
+                        "rng": rng_digest(p["rng_state"]) if p.get("rng_state") is not None else None}
+                       for p in (req.get("prelude") or [])]
     h.update(json.dumps(slim, sort_keys=True, default=str).encode())
     if req.get("rng_state") is not None:
-        from .world import rng_digest
         h.update(rng_digest(req["rng_state"]).encode())
     return h.hexdigest()
 
